@@ -151,8 +151,18 @@ func (c *Ctx) finish(verifDir string, t0 time.Time, seed int) int {
 	})
 	broken := []string{}
 	for r, n := range c.Floors {
-		if perRule[r] < n {
-			broken = append(broken, fmt.Sprintf("VACUOUS rule %s matched %d instances, floor is %d", r, perRule[r], n))
+		if os.Getenv("VERIF_FLOORS") != "" {
+			fmt.Printf("FLOOR %s matched=%d floor=%d\n", r, perRule[r], n)
+		}
+		// the declared number is the count confirmed by hand on the reference tree; the alarm threshold is 60 % of it
+		// (declared counts ≤ 4 are kept as they are): a rule that lost most of its instances is vacuous, a rule that
+		// lost a few because a maintainer de-duplicated code is not
+		eff := n
+		if n > 4 {
+			eff = (n*6 + 9) / 10
+		}
+		if perRule[r] < eff {
+			broken = append(broken, fmt.Sprintf("VACUOUS rule %s matched %d instances, floor is %d (60%% of the %d confirmed)", r, perRule[r], eff, n))
 		}
 	}
 	if c.P.Fixtures {
